@@ -175,6 +175,22 @@ func faLayout(r *rand.Rand, recs []*fasta.Fasta) []byte {
 	return out
 }
 
+// faFixedWidth: every sequence line exactly w bytes wide (the last one shorter), LF or CRLF.
+func faFixedWidth(recs []*fasta.Fasta, w int, crlf bool) []byte {
+	nl := "\n"
+	if crlf {
+		nl = "\r\n"
+	}
+	var out []byte
+	for _, f := range recs {
+		out = append(append(append(out, '>'), f.Name...), nl...)
+		for i := 0; i < len(f.Sequence); i += w {
+			out = append(append(out, f.Sequence[i:min(i+w, len(f.Sequence))]...), nl...)
+		}
+	}
+	return out
+}
+
 func faCanonical(recs []*fasta.Fasta) []byte { // what the specification's WriteAll(recs, 80) is expected to be
 	var out []byte
 	for _, f := range recs {
@@ -251,7 +267,29 @@ func fastaDrive(args []string) error {
 					f.Sequence[j] = "ACGT"[r.Intn(4)]
 				}
 			}
+			if sid%9 == 4 && i == 0 { // a name line of exactly / about a power-of-two length ('>' + name = 4096, 8192)
+				f.Name = faRandBytes(r, []int{4094, 4095, 4096, 8191}[(sid/9)%4], "\r\n")
+			}
 			recs = append(recs, f)
+		}
+		// all fields of all records are laid out back to back in ONE array and handed out as plain sub-slices (their capacity
+		// runs into the next field): a writer must not touch anything beyond len() of what it was given
+		{
+			total := 0
+			for _, f := range recs {
+				total += len(f.Name) + len(f.Sequence)
+			}
+			arena := make([]byte, 0, total)
+			for _, f := range recs {
+				a := len(arena)
+				arena = append(arena, f.Name...)
+				b := len(arena)
+				arena = append(arena, f.Sequence...)
+				if f.Name != nil {
+					f.Name = arena[a:b]
+				}
+				f.Sequence = arena[b:len(arena)]
+			}
 		}
 		want := []faRec{}
 		for _, f := range recs {
@@ -265,8 +303,9 @@ func fastaDrive(args []string) error {
 			bm []byte
 		}
 		var hs []held
-		for _, f := range recs {
-			ev := faEvent{Sid: sid, Op: "write", Kind: "write", Name: ints(f.Name), Seq: ints(f.Sequence),
+		for i, f := range recs {
+			// the event describes the record as it was BEFORE any write of this session (want[i])
+			ev := faEvent{Sid: sid, Op: "write", Kind: "write", Name: want[i].Name, Seq: want[i].Seq,
 				Bytes: []int{}, Want: []faRec{}, Items: []faRec{}}
 			buf := &bytes.Buffer{}
 			nameBefore, seqBefore := bytes.Clone(f.Name), bytes.Clone(f.Sequence)
@@ -286,9 +325,17 @@ func fastaDrive(args []string) error {
 			own = append(own, buf.Bytes()...)
 			hs = append(hs, held{ev, bm})
 		}
-		for _, h := range hs {
+		for i, h := range hs {
 			h.ev.BM = ints(h.bm)
+			if !faEqual([]faRec{faProject(recs[i])}, []faRec{want[i]}) {
+				h.ev.Panic = true // some write changed this record (e.g. through the spare capacity of a neighbour)
+			}
 			tw.emit(h.ev)
+		}
+		// the read inputs are built from pristine copies of the records (a writer that damaged its input must not make the
+		// driver produce uncertified inputs afterwards)
+		for i := range recs {
+			recs[i] = &fasta.Fasta{Name: unints(want[i].Name), Sequence: unints(want[i].Seq)}
 		}
 		// read events
 		emitRead := func(kind string, data []byte) {
@@ -307,6 +354,14 @@ func fastaDrive(args []string) error {
 		}
 		for i := 0; i < nl; i++ {
 			emitRead("layout", faLayout(r, recs))
+		}
+		if long >= 4096 || sid%9 == 4 { // physical lines of exactly 4096 / 8192 / 65536 bytes, LF and CRLF
+			for _, w := range []int{4096, 8192, 65536} {
+				if w <= long+1 || w == 4096 {
+					emitRead("layout", faFixedWidth(recs, w, false))
+					emitRead("layout", faFixedWidth(recs, w-1, true))
+				}
+			}
 		}
 	}
 	return tw.close()
